@@ -33,7 +33,7 @@ type freshStore struct {
 // indexStores finds `X[k] = v` in module functions of pk where the static type of X satisfies match.
 func indexStores(c *an.Ctx, match func(container types.Type) bool) []freshStore {
 	var out []freshStore
-	for _, f := range c.P.Fns {
+	for _, f := range c.P.Units() {
 		if f.Body == nil {
 			continue
 		}
@@ -61,7 +61,7 @@ func indexStores(c *an.Ctx, match func(container types.Type) bool) []freshStore 
 func fieldStores(c *an.Ctx, owners map[string]bool, want func(fieldType types.Type) bool) []freshStore {
 	p := c.P
 	var out []freshStore
-	for _, f := range p.Fns {
+	for _, f := range p.Units() {
 		if f.Body == nil {
 			continue
 		}
@@ -143,7 +143,7 @@ func checkFresh(c *an.Ctx, rule string, stores []freshStore, why string, selfApp
 // fieldIndexStores finds `x.f[k] = v` for the field with the given key ("InMemLoader.files").
 func fieldIndexStores(c *an.Ctx, fieldKey string) []freshStore {
 	var out []freshStore
-	for _, f := range c.P.Fns {
+	for _, f := range c.P.Units() {
 		if f.Body == nil {
 			continue
 		}
@@ -168,7 +168,7 @@ func fieldIndexStores(c *an.Ctx, fieldKey string) []freshStore {
 func inPlaceWrites(c *an.Ctx, rule, fieldKey, why string) int {
 	p := c.P
 	nreads := 0
-	for _, f := range p.Fns {
+	for _, f := range p.Units() {
 		if f.Body == nil {
 			continue
 		}
